@@ -192,7 +192,8 @@ func (s *Server) Do(ctx context.Context, e *univ.Exec, query, opName string, var
 		recovers.Add(1)
 		return gqlerror.Errorf("%s", RecoverMsg(err))
 	})
-	if s.DefaultRecover {
+	defaultRecover := s.DefaultRecover
+	if defaultRecover {
 		ex.SetRecoverFunc(quietDefaultRecover)
 	}
 	ctx = graphql.StartOperationTrace(ctx)
@@ -204,13 +205,13 @@ func (s *Server) Do(ctx context.Context, e *univ.Exec, query, opName string, var
 	rh, ctx2 := ex.DispatchOperation(ctx, rc)
 	resp := rh(ctx2)
 	nrec := int(recovers.Load())
-	if s.DefaultRecover {
+	if defaultRecover {
 		nrec = -1
 	}
 	if resp == nil {
-		return &Response{Recovers: nrec, DefaultRecover: s.DefaultRecover}
+		return &Response{Recovers: nrec, DefaultRecover: defaultRecover}
 	}
-	return &Response{Data: resp.Data, Errors: resp.Errors, Recovers: nrec, DefaultRecover: s.DefaultRecover, HasNext: resp.HasNext, Label: resp.Label, Path: resp.Path, OpCtx: rc}
+	return &Response{Data: resp.Data, Errors: resp.Errors, Recovers: nrec, DefaultRecover: defaultRecover, HasNext: resp.HasNext, Label: resp.Label, Path: resp.Path, OpCtx: rc}
 }
 
 // DoAll executes one operation and reads payloads until the response handler returns nil (or max
